@@ -77,7 +77,12 @@ func TestC10(t *testing.T) {
 		o := model.GenOpts{Sparse: rapid.Bool().Draw(rt, "sparse")}
 		th.SteerAway(rec, &o)
 		m := model.GenTree(rt, v, o)
+		// one tree in four is built the way a caller who reuses values builds it: equal scalar leaves of one
+		// Go type share a single variable; the library must not write through such a pointer
 		root := model.Build(m)
+		if rapid.IntRange(0, 3).Draw(rt, "sharedleaves") == 0 {
+			root = model.BuildShared(m)
+		}
 		rs := v.Schema().SchemaTree[reflect.TypeOf(root).Elem().Name()]
 		steps := rapid.IntRange(1, 8).Draw(rt, "steps")
 		var hist []string
